@@ -280,6 +280,11 @@ func (g *kgoGen) str(nonEmpty bool) string {
 	switch r.Intn(10) {
 	case 0:
 		n = 0
+		if r.Chance(15) {
+			// strings at and beyond the sizes of the readers in play (bufio's 4096 default and its multiples): client ids,
+			// topic names, record keys / values / header values of a few KB are ordinary (JSON payloads)
+			n = []int{4095, 4096, 4097, 5010, 8191, 8193, 12000}[r.Intn(7)]
+		}
 	case 1:
 		n = 60 + r.Intn(10)
 	case 2:
